@@ -23,9 +23,10 @@ VARIABLES
   pos,      \* index of the cgroup being processed (0 = outside a tick)
   step,     \* sub-step inside one cgroup
   pend,     \* what the current cgroup's step still has to write
-  swp       \* swappiness currently written by Senpai ("" = untouched / restored)
+  swp,      \* swappiness currently written by Senpai ("" = untouched / restored)
+  gone      \* paths of matched cgroups removed in the middle of the current tick (after they were listed)
 
-sv == <<scfg, track, feat, cgs, sysS, pos, step, pend, swp>>
+sv == <<scfg, track, feat, cgs, sysS, pos, step, pend, swp, gone>>
 
 Min2(a, b) == IF a <= b THEN a ELSE b
 Max2(a, b) == IF a >= b THEN a ELSE b
@@ -46,9 +47,9 @@ Clamp(c, x) == Max2(Floor(c), Min2(Ceil(c), x))
 HighFile == IF feat.hightmp = "yes" THEN "memory.high.tmp" ELSE "memory.high"
 
 SInit == /\ scfg = [mode |-> "none"] /\ track = <<>> /\ feat = [reclaim |-> "unknown", hightmp |-> "unknown"]
-         /\ cgs = <<>> /\ sysS = [swaptotal |-> 0, swappiness |-> 0] /\ pos = 0 /\ step = "idle" /\ pend = <<>> /\ swp = ""
+         /\ cgs = <<>> /\ sysS = [swaptotal |-> 0, swappiness |-> 0] /\ pos = 0 /\ step = "idle" /\ pend = <<>> /\ swp = "" /\ gone = {}
 SReset(cfg) == /\ scfg' = cfg /\ track' = <<>> /\ feat' = [reclaim |-> "unknown", hightmp |-> "unknown"]
-               /\ cgs' = <<>> /\ sysS' = [swaptotal |-> 0, swappiness |-> 0] /\ pos' = 0 /\ step' = "idle" /\ pend' = <<>> /\ swp' = ""
+               /\ cgs' = <<>> /\ sysS' = [swaptotal |-> 0, swappiness |-> 0] /\ pos' = 0 /\ step' = "idle" /\ pend' = <<>> /\ swp' = "" /\ gone' = {}
 
 \* ---------------------------------------------------------------- what one cgroup's turn may write
 \* normal mode: decide from the tracked state what this turn does; returns the pending write list
@@ -85,6 +86,7 @@ TickBegin(cs, sysv) ==
   /\ pos' = (IF cs = <<>> THEN 0 ELSE 1) /\ step' = (IF cs = <<>> THEN "idle" ELSE "plan") /\ pend' = <<>> /\ swp' = ""
   \* state of cgroups that no longer match (removed or re-created: new identity) is dropped
   /\ track' = [i \in {c \in DOMAIN track : \E k \in DOMAIN cs : cs[k].id = c} |-> track[i]]
+  /\ gone' = {}
   /\ UNCHANGED <<scfg, feat>>
 
 Learn(c) == [reclaim |-> IF feat.reclaim = "unknown" /\ scfg.mode = "immediate" THEN (IF c.hasReclaim THEN "yes" ELSE "no") ELSE feat.reclaim,
@@ -96,7 +98,7 @@ Plan ==
   /\ feat' = Learn(Cur)
   /\ pend' = IF scfg.mode = "normal" THEN NormalPlan(Cur) ELSE ImmediatePlan(Cur)
   /\ step' = "do"
-  /\ UNCHANGED <<scfg, track, cgs, sysS, pos, swp>>
+  /\ UNCHANGED <<scfg, track, cgs, sysS, pos, swp, gone>>
 
 Advance == /\ pos' = IF pos < Len(cgs) THEN pos + 1 ELSE 0
            /\ step' = IF pos < Len(cgs) THEN "plan" ELSE "idle"
@@ -117,7 +119,7 @@ NoWrite ==
      \/ /\ pend = <<"trackNoWrite">> /\ track' = SetTrack(Cur.id, NewState(Cur, 0))
      \/ /\ pend = <<"quiet">> /\ UNCHANGED track
   /\ Advance
-  /\ UNCHANGED <<scfg, feat, cgs, sysS, swp>>
+  /\ UNCHANGED <<scfg, feat, cgs, sysS, swp, gone>>
 
 \* observable: a control file of cgroup `path` is written
 Write(path, file, v) ==
@@ -148,7 +150,7 @@ Write(path, file, v) ==
         /\ track' = SetTrack(Cur.id, [track[Cur.id] EXCEPT !.ticks = scfg.interval])
         /\ IF scfg.modulate THEN (step' = "restore" /\ UNCHANGED <<pos, pend>>) ELSE Advance
         /\ UNCHANGED swp
-  /\ UNCHANGED <<scfg, feat, cgs, sysS>>
+  /\ UNCHANGED <<scfg, feat, cgs, sysS, gone>>
 
 \* observable: a control-file write of the current cgroup failed: the cgroup is dropped from tracking (it
 \* is picked up afresh on a later tick); a lowered swappiness is still restored
@@ -159,7 +161,22 @@ WriteFailed(path, file) ==
   /\ (pend[1] = "reclaim" /\ scfg.modulate => swp # "")
   /\ track' = [i \in DOMAIN track \ {Cur.id} |-> track[i]]
   /\ IF swp # "" THEN (step' = "restore" /\ UNCHANGED <<pos, pend>>) ELSE Advance
-  /\ UNCHANGED <<scfg, feat, cgs, sysS, swp>>
+  /\ UNCHANGED <<scfg, feat, cgs, sysS, swp, gone>>
+
+\* observable (environment): a matched cgroup is removed in the middle of the tick, after it was listed.  Nothing
+\* of it can be read or written from then on.
+Vanish(path) == /\ gone' = gone \cup {path}
+                /\ UNCHANGED <<scfg, track, feat, cgs, sysS, pos, step, pend, swp>>
+
+\* silent: the rest of the turn of a cgroup that is gone writes nothing; the cgroup is not tracked any more
+\* (its identity never comes back), a lowered swappiness is still restored.  What was learnt about the kernel
+\* is either what a living cgroup shows or nothing: a failed probe on a dead cgroup is no evidence.
+SkipGone ==
+  /\ pos > 0 /\ step \in {"plan", "do"} /\ Cur.path \in gone
+  /\ feat' \in {feat, Learn(Cur)}
+  /\ track' = [i \in DOMAIN track \ {Cur.id} |-> track[i]]
+  /\ IF swp # "" THEN (step' = "restore" /\ UNCHANGED <<pos, pend>>) ELSE Advance
+  /\ UNCHANGED <<scfg, cgs, sysS, swp, gone>>
 
 \* observable: system swappiness is written (only with modulate_swappiness, lowered before the reclaim, restored after)
 Swappiness(v) ==
@@ -169,11 +186,11 @@ Swappiness(v) ==
         /\ swp' = "lowered" /\ UNCHANGED <<pos, step, pend>>
      \/ /\ step = "restore" /\ v = sysS.swappiness
         /\ swp' = "" /\ Advance
-  /\ UNCHANGED <<scfg, track, feat, cgs, sysS>>
+  /\ UNCHANGED <<scfg, track, feat, cgs, sysS, gone>>
 
 TickEnd == /\ pos = 0 /\ step = "idle" /\ swp = "" /\ UNCHANGED sv
 
-SSilent == Plan \/ NoWrite
+SSilent == Plan \/ NoWrite \/ SkipGone
 
 \* ---------------------------------------------------------------- properties (over the state)
 \* swappiness is never left lowered outside a cgroup's turn
